@@ -172,11 +172,8 @@ def splitOn (sep : Char) : List Char → List (List Char)
       | [] => [[c]]
       | h :: t => (c :: h) :: t
 
-/-- `str.isspace()` of one character (Unicode White_Space plus the four information separators, as CPython) -/
-def isPySpace (c : Char) : Bool :=
-  let n := c.toNat
-  (9 ≤ n && n ≤ 13) || (28 ≤ n && n ≤ 32) || n == 0x85 || n == 0xA0 || n == 0x1680 || (0x2000 ≤ n && n ≤ 0x200A)
-  || n == 0x2028 || n == 0x2029 || n == 0x202F || n == 0x205F || n == 0x3000
+/-- `str.isspace()` of one character (ranges GENERATED from the running interpreter) -/
+def isPySpace (c : Char) : Bool := inRanges Generated.Locale.pySpace c
 
 def lstrip (s : List Char) : List Char := s.dropWhile isPySpace
 def strip (s : List Char) : List Char := (lstrip (lstrip s).reverse).reverse
@@ -218,6 +215,26 @@ def splitext (b : List Char) : List Char × List Char :=
   else
     let root := b.take (b.length - extRev.length - 1)
     if root.all (· = '.') then (b, []) else (root, b.drop (b.length - extRev.length - 1))
+
+/-! ## `_munch_language_name` -/
+
+/-- `str.split()` without arguments: the maximal runs of non-whitespace -/
+def splitWsAux : List Char → List Char → List (List Char)
+  | cur, [] => if cur = [] then [] else [cur.reverse]
+  | cur, c :: r =>
+    if isPySpace c then (if cur = [] then splitWsAux [] r else cur.reverse :: splitWsAux [] r)
+    else splitWsAux (c :: cur) r
+
+def splitWs (s : List Char) : List (List Char) := splitWsAux [] s
+
+/-- the ASCII character left of `NFD(lower(c))` after `.encode('ASCII', 'ignore')`, if any (table GENERATED from the interpreter).
+    `str.lower` is character-wise except for the final-sigma rule and NFD only reorders combining marks, none of which is ASCII,
+    so the munching of a string is the munching of its characters. -/
+def residue (c : Char) : Option Char := Generated.Locale.asciiResidue.lookup c.toNat
+
+/-- `_munch_language_name`: `' '.join(s.split())`, `.lower()`, NFD, drop everything that is not ASCII -/
+def munchName (s : List Char) : List Char :=
+  joinWith [' '] ((splitWs s).map fun w => w.filterMap residue)
 
 /-! ## `get_language_for_name` -/
 
